@@ -771,6 +771,8 @@ class Engine:
         """a fresh value of the same shape/kind as v"""
         if isinstance(v, Ref):
             d = st.get(v)
+            if hasattr(d, "havoc"):
+                return ("heap", d.havoc(hint))      # data types defined by a contract (e.g. a bounded deque) keep their type
             if isinstance(d, ListData):
                 return ("heap", ListData(fresh(hint + "_n", I), fresh_sel(hint, d.kind or "o"), d.kind))
             if isinstance(d, ArrData):
